@@ -377,7 +377,7 @@ pub fn run(seed: u64, tier: &str, out: &Path, _extra: &[(String, String)]) -> st
         }
 
         // ---- generated histories ----
-        let n_cases = if thorough { 14_000 } else { 1_400 };
+        let n_cases = if thorough { 10_000 } else { 1_000 };
         for ci in 0..n_cases {
             let mut r = rng.fork(ci as u64);
             let n = match r.below(10) { 0 => 1, 1..=4 => 2, 5..=8 => 3, _ => 4 };
@@ -404,19 +404,19 @@ pub fn run(seed: u64, tier: &str, out: &Path, _extra: &[(String, String)]) -> st
                 }
                 let roll = if force_tick { 99 } else { r.below(100) };
                 let op = match roll {
-                    0..=24 => {
+                    0..=27 => {
                         // REG_NGP: any link; sometimes specifically not the pending one
                         Op::Ngp(pick_link(&mut r, n))
                     }
-                    25..=46 => {
+                    28..=50 => {
                         // REG2: right/wrong link x well-formed/short/long x fresh/same id
                         let i = match pending { Some(p) if r.chance(3, 4) => p, _ => pick_link(&mut r, n) };
                         let len = if r.chance(if style == 1 { 5 } else { 3 }, 6) { 258 } else { *r.pick(&[2usize, 3, 100, 257, 259, 300]) };
                         let id = if r.chance(1, 8) { w.reg.srtla_id } else { *r.pick(&pool) };
                         Op::Reg2(i, len, id)
                     }
-                    47..=61 => Op::Reg3(pick_link(&mut r, n)),
-                    62..=68 => Op::RegErr(match pending { Some(p) if r.chance(1, 2) => p, _ => pick_link(&mut r, n) }),
+                    51..=60 => Op::Reg3(pick_link(&mut r, n)),
+                    61..=67 => Op::RegErr(match pending { Some(p) if r.chance(1, 2) => p, _ => pick_link(&mut r, n) }),
                     _ => {
                         let amb = if r.chance(1, 5) { *r.pick(&[1u64, 2, 5]) } else { 0 };
                         let steer = if r.chance(if style == 3 { 3 } else { 1 }, 4) {
